@@ -11,6 +11,7 @@ import (
 	"testing"
 	"time"
 
+	wrapping "github.com/hashicorp/go-kms-wrapping/v2"
 	"github.com/hashicorp/nodeenrollment"
 	"github.com/hashicorp/nodeenrollment/registration"
 	nodetls "github.com/hashicorp/nodeenrollment/tls"
@@ -78,6 +79,8 @@ func enroll(t vkit.TB, c config, state, params *structpb.Struct, subst string) b
 	handleOpts = append(handleOpts, nodeOpts...)
 	var a *vkit.Actor
 	var req *types.FetchNodeCredentialsRequest
+	var wrapRW wrapping.Wrapper
+	var reqOtherParams *types.FetchNodeCredentialsRequest
 	switch c.Flow {
 	case "operator-authorized":
 		a = vkit.NewActorOn(nodeStore, "subject", nodeOpts...)
@@ -97,8 +100,13 @@ func enroll(t vkit.TB, c config, state, params *structpb.Struct, subst string) b
 		req = a.Request(reqOpts...)
 	case "wrapper":
 		rw := vkit.NewAead("registration")
+		wrapRW = rw
+		_ = wrapRW
 		a = vkit.NewActorOn(nodeStore, "subject", nodeOpts...)
 		req = a.Request(nodeenrollment.WithRegistrationWrapper(rw), nodeenrollment.WithWrappingRegistrationFlowApplicationSpecificParams(params))
+		// the same node, asking again later with OTHER application-specific parameters
+		// (built now, while the node still holds its registration nonce)
+		reqOtherParams = a.Request(nodeenrollment.WithRegistrationWrapper(rw), nodeenrollment.WithWrappingRegistrationFlowApplicationSpecificParams(vkit.UniqueStruct("other-params")))
 		serverOpts = w.O(nodeenrollment.WithRegistrationWrapper(rw), nodeenrollment.WithState(state))
 	case "re-wrapped", "re-wrapped/server-has-own-registration-wrapper", "re-wrapped/server-has-the-nodes-registration-wrapper":
 		a = vkit.NewActorOn(nodeStore, "subject", nodeOpts...)
@@ -311,6 +319,17 @@ func enroll(t vkit.TB, c config, state, params *structpb.Struct, subst string) b
 		sk2, _ := ecdh.X25519().NewPrivateKey(ni2.ServerEncryptionPrivateKeyBytes)
 		if sk2 == nil || !bytes.Equal(sk2.PublicKey().Bytes(), resp2.ServerEncryptionPublicKeyBytes) || !proto.Equal(ni2.State, smaller) {
 			return fail("record-differs-after-second-fetch", "after the node fetched again the stored record is not what the response was built from")
+		}
+	}
+	// store-once server storage keeps the first record: the node asking again - this time
+	// reporting OTHER application-specific parameters - must still be answered
+	if c.Flow == "wrapper" && c.Backend == "storeonce" && !c.StorageWrap {
+		resp2, err := registration.FetchNodeCredentials(w.Ctx, w.Store, reqOtherParams, serverOpts...)
+		if err != nil || len(resp2.GetEncryptedNodeCredentials()) == 0 {
+			return fail("second-fetch-failed", "the wrapper flow re-sent by the same node with other application-specific parameters failed on the store-once back end: %v", err)
+		}
+		if _, err := vkit.TryOpen(resp2, a.CertPkix, a.EncPriv); err != nil {
+			return fail("response-not-for-requester", "second response does not open with the requester's encryption key: %v", err)
 		}
 	}
 	// the node starts over in the same storage: new pending credentials replace the completed ones
